@@ -145,6 +145,7 @@ def _peel(t):
 
 
 def run(F, R, tier, cfg):
+    error_dir_rule(F, R)
     # ---- hop fields are authenticated: the simulator's validator compares the MAC unless ignore_macs is configured
     import c11
     vh = [p for p, e in F.fns.items() if (e.get("trait_item") or "").endswith("AdvanceValidator::validate_hop") and p.startswith("<" + STD)]
@@ -307,3 +308,36 @@ def run(F, R, tier, cfg):
         R.ob("GS-local-delivery", "route: ForwardLocal result passes the local_as != dst_ia test", ok, True)
         if not ok:
             R.violation("GS-local-delivery", p, "a packet can be delivered locally in an AS that is not its destination", F.loc(p))
+
+
+def error_dir_rule(F, R):
+    """FLOW-err-dir: "its verdict (… error class …) equals that of a router following the SCION rules".  The SCMP code of an
+    unknown-interface error depends on the construction-direction flag of the segment the offending hop field belongs to.
+    In StandardValidator::validate_segment_change every StandardRoutingError carrying (if_id, cons_dir) takes both from the
+    same (hop field, info field) pair: an interface id derived from the *next* hop field goes with the *next* info field's
+    flag, one from the current hop field with the current info field's."""
+    vs = [p for p, e in F.fns.items() if (e.get("trait_item") or "").endswith("AdvanceValidator::validate_segment_change") and p.startswith("<" + STD)]
+    n = 0
+    for p in vs:
+        b = F.body(p)
+        R.fn(p)
+        pairs = {"param:3": "param:4", "param:5": "param:6"}      # (current_hop_field, current_info_field), (next_hop_field, next_info_field)
+        for bb in sorted(b.live_blocks()):
+            for st in b.stmts(bb):
+                if not (st[0] == "=" and st[2][0] == "agg" and st[2][1][0] == "adt" and st[2][1][1].endswith("StandardRoutingError")):
+                    continue
+                names = st[2][1][4] if len(st[2][1]) > 4 else []
+                if "if_id" not in names or "cons_dir" not in names:
+                    continue
+                ops = dict(zip(names, st[2][2]))
+                ti, tc = tokens(b.origin(ops["if_id"])), tokens(b.origin(ops["cons_dir"]))
+                hop = [h for h in pairs if h in ti]
+                n += 1
+                ok = len(hop) == 1 and pairs[hop[0]] in tc and not any(o in tc for h, o in pairs.items() if h != hop[0])
+                R.ob("FLOW-err-dir", "%s{if_id from %s, cons_dir from %s}" % (st[2][1][2], hop, sorted(t for t in tc if t.startswith("param:"))), ok, True,
+                     {"rule": "FLOW-err-dir", "variant": st[2][1][2], "if_id_from": hop, "cons_dir_from": sorted(t for t in tc if t.startswith("param:")), "holds": ok})
+                if not ok:
+                    R.violation("FLOW-err-dir", "%s/%s" % (p, st[2][1][2]), "%s reports interface %s with the construction-direction flag of %s: the SCMP code "
+                                "(cons-ingress vs cons-egress interface unknown) is the wrong one for crossovers between segments of different direction"
+                                % (st[2][1][2], hop, sorted(t for t in tc if t.startswith("param:"))), b.span_of(st[3]).loc)
+    R.floor("FLOW-err-dir", n, 2, "interface errors built in StandardValidator::validate_segment_change")
